@@ -2,8 +2,8 @@ package props
 
 import (
 	"fmt"
-	"os"
 	"math"
+	"os"
 	"sort"
 	"strings"
 	"testing"
